@@ -145,6 +145,11 @@ class _Base:
     def _on_event(self, ev):
         pass
 
+    _falsy = False
+
+    def __bool__(self):
+        return not self._falsy
+
 
 class T26(_Base):
     """2.6-style: no skip/xfail/uxsuccess, no details, no startTestRun."""
